@@ -240,6 +240,8 @@ func (s *schemaPropsValidator) validateOneOf(data interface{}, mainResult, keepR
 		mainResult.Merge(bestFailures)
 		// firstSucess necessarily nil
 	case 1:
+		// the errors kept from failing alternatives examined after the successful one are void as well
+		_ = keepResultOneOf.cleared()
 		mainResult.Merge(firstSuccess)
 		if bestFailures != nil && bestFailures.wantsRedeemOnMerge {
 			pools.poolOfResults.RedeemResult(bestFailures)
